@@ -303,12 +303,25 @@ def _names_of(sess):
     return set(BASE_NAMES) | set(sess["globals"]) | set(sess["locals"])
 
 
-def parse_ctx(src, sess):
-    """What Execer.compile does before compiling: the context-aware tree."""
+_FILTER_EXECER = None  # a second Execer that only ever sees the C03-filter programs (no binding of n)
+
+
+def parse_ctx(src, sess, pristine=False):
+    """What Execer.compile does before compiling: the context-aware tree.  pristine=True uses an
+    Execer of its own, so that state a defective session Execer carries over from earlier inputs
+    cannot poison the C03 filter."""
     from xonsh.built_ins import XSH
 
+    global _FILTER_EXECER
+    ex = XSH.execer
+    if pristine:
+        if _FILTER_EXECER is None:
+            from xonsh.execer import Execer
+
+            _FILTER_EXECER = Execer()
+        ex = _FILTER_EXECER
     names = _names_of(sess)
-    return XSH.execer.parse(src, BUILTIN_NAMES | names, mode="exec", filename=FILENAME, user_names=set(names))
+    return ex.parse(src, BUILTIN_NAMES | names, mode="exec", filename=FILENAME, user_names=set(names))
 
 
 def parse_ctx_free(src):
@@ -479,8 +492,8 @@ def _use_alone_ok(coords):
             bare = S.build({"b": "sess-global", "u": c["u"], "w": c["w"]})
             expl = S.build({"b": "sess-global", "u": c["u"], "w": c["w"]}, explicit=True)
             sess = {"globals": [x for x in bare["globals"] if x != "n"], "locals": []}
-            tb = parse_ctx(bare["src"], sess)
-            te = parse_ctx(expl["src"], sess)
+            tb = parse_ctx(bare["src"], sess, pristine=True)
+            te = parse_ctx(expl["src"], sess, pristine=True)
             ok = first_diff(tb, te) is None and any(x.startswith("subproc_") for x in xonsh_calls(tb))
         except (S.NotApplicable, SyntaxError):
             ok = False
@@ -856,39 +869,46 @@ def _minimise(item, sig):
 
 
 def _minimise_hist(item, sig):
-    """smallest history with the same failure signature: plain name, warm-up only, harness-made
-    change, head focus, every shorter event sequence (shortest first), then the first use shape in
-    grammar order."""
+    """smallest history with the same failure signature: plain name, warm-up only, head focus,
+    events dropped one at a time while the rest stays a valid history, every change made by the
+    harness where possible, then the first use shape in grammar order."""
     first, mode, events, u, f, name = item[1]
 
     def fails(t):
-        r = _eval_item(("hi", t))
+        r = _eval_item(("hi", tuple(t)))
         return r["status"] == "viol" and r["sig"] == sig
 
     cur = [first, mode, tuple(events), u, f, name]
     changed = True
     while changed:
         changed = False
-        for idx, simple in ((5, "n"), (0, "W"), (1, "h"), (4, "head")):
+        for idx, simple in ((5, "n"), (0, "W"), (4, "head")):
             if cur[idx] != simple:
                 t = list(cur)
                 t[idx] = simple
-                if fails(tuple(t)):
+                if fails(t):
                     cur, changed = t, True
-        for ev in S.histories(len(cur[2])):
-            if len(ev) >= len(cur[2]) and ev >= cur[2]:
-                break
+        for k in range(len(cur[2])):
+            ev = cur[2][:k] + cur[2][k + 1 :]
+            if not ev or not S.hist_valid(ev):
+                continue
             t = list(cur)
-            t[2] = ev
-            if fails(tuple(t)):
+            t[2], t[1] = ev, cur[1][:k] + cur[1][k + 1 :]
+            if fails(t):
                 cur, changed = t, True
                 break
+        for k in range(len(cur[1])):
+            if cur[1][k] != "h":
+                t = list(cur)
+                t[1] = cur[1][:k] + "h" + cur[1][k + 1 :]
+                if fails(t):
+                    cur, changed = t, True
     for uu in S.USE_ORDER:
         if uu == cur[3]:
             break
         t = list(cur)
         t[3] = uu
-        if fails(tuple(t)):
+        if fails(t):
             cur = t
             break
     return ("hi", tuple(cur))
@@ -1159,7 +1179,7 @@ def enumerate_items(thorough):
             for p in mid_progs:
                 add(("at", p, tail, "nl", "mid"))
     # ---------------- clause (h): session histories
-    with _Slice("hist: history (<=%d binding changes in builtins/globals/locals) x {harness, source} x first input x use x focus x name" % (3 if thorough else 2)):
+    with _Slice("hist: history (<=%d binding changes in builtins/globals/locals) x who makes each change (harness/input) x first input x use x focus x name" % (3 if thorough else 2)):
         hs2 = S.histories(2)
         hs3 = [h for h in S.histories(3) if len(h) == 3]
 
@@ -1167,15 +1187,19 @@ def enumerate_items(thorough):
             return ("W", "WC") if S.USES[u]["cmd"] else ("W",)
 
         for ev in (hs2 + hs3 if thorough else hs2):
-            for mode in S.HIST_MODES:
+            for mode in S.hist_modes(len(ev)):
+                uniform = len(set(mode)) == 1
                 for u in uses:
+                    if not uniform and u not in core and (not thorough or len(ev) == 3):
+                        continue  # who-made-the-change mixes: core uses (thorough: every use up to 2 events)
                     for first in firsts(u):
                         add(("hi", (first, mode, ev, u, "head", "n")))
-                    add(("hi", ("W", mode, ev, u, "arg", "n")))
+                    if uniform:
+                        add(("hi", ("W", mode, ev, u, "arg", "n")))
         for ev in (hs2 + hs3 if thorough else hs2):
             if "+B" not in ev:
                 continue
-            for mode in S.HIST_MODES:
+            for mode in S.hist_modes(len(ev), mixed=False):
                 for u in uses:
                     for first in firsts(u):
                         add(("hi", (first, mode, ev, u, "head", "_")))
@@ -1235,8 +1259,9 @@ def run(ctx):
         (dict(b="assign", u="gt", o="c"), ("del", "del-multi")),
         (dict(b="assign", u="sub-flag"), ("at", "return-outside", "nl", "end")),
         (dict(b="def", u="bare"), ("at", "close-paren", "semi", "mid")),
-        (None, ("hi", ("WC", "h", ("+B", "-B"), "sub-flag", "head", "n"))),
-        (None, ("hi", ("W", "s", ("+L", "+B"), "and", "arg", "n"))),
+        (None, ("hi", ("WC", "hh", ("+B", "-B"), "sub-flag", "head", "n"))),
+        (None, ("hi", ("W", "ss", ("+L", "+B"), "and", "arg", "n"))),
+        (None, ("hi", ("W", "sh", ("+G", "-G"), "pipe", "head", "n"))),
     ):
         if c is None:
             steps, sep = S.hist_steps(*extra[1])
